@@ -104,12 +104,19 @@ func TestPropRequestDestination(t *testing.T) {
 		cl.Auth.NTSKEFetcher = ntske.Fetcher{Log: cl.Log, Port: strconv.Itoa(ke.Addr.Port),
 			TLSConfig: tls.Config{NextProtos: []string{"ntske/1"}, InsecureSkipVerify: true, ServerName: c.Host, MinVersion: tls.VersionTLS13}}
 		var err error
+		// the configured remote address belongs to the caller, who may hand the same object to other clients (the
+		// benchmark gives one to ten concurrent clients, each with its own key exchange): where this client's exchange
+		// sends it must not be written into it
+		configured := &net.UDPAddr{IP: net.IPv4(127, 0, 0, 1), Port: 9}
 		attempt := func(d time.Duration) {
 			ctx, cancel := context.WithTimeout(context.Background(), d)
 			// the configured NTP address is irrelevant once the exchange names one; give it a port nobody listens on
-			_, _, err = client.MeasureClockOffsetIP(ctx, cl.Log, cl, &net.UDPAddr{IP: net.IPv4(127, 0, 0, 1)}, &net.UDPAddr{IP: net.IPv4(127, 0, 0, 1), Port: 9})
+			_, _, err = client.MeasureClockOffsetIP(ctx, cl.Log, cl, &net.UDPAddr{IP: net.IPv4(127, 0, 0, 1)}, configured)
 			cancel()
 			ke.Wait()
+			if !configured.IP.Equal(net.IPv4(127, 0, 0, 1)) || configured.Port != 9 {
+				t.Fatalf("the client wrote the server of its own key exchange (%v) into the remote address object of its caller (configured 127.0.0.1:9): another client given the same object sends its request, with its own cookie, there", configured)
+			}
 		}
 		attempt(150 * time.Millisecond)
 		wantIP := "127.0.0.1"
